@@ -18,6 +18,8 @@ def instances(tier):
                 else: B_ = B
                 out.append({'entry': e, 'params': [B_, nt, prog], 'bound': '%d threads each %s its own handle to the same %s payload; every interleaving of the visible operations with at most %d preemptions'
                             % (nt, ('dropping', 'copying and dropping', 'reassigning')[prog], e[7:], B_)})
+    for prog in (0, 1, 2):
+        out.append({'entry': 'h_conc_atomic', 'params': [2 if tier == 'quick' else 3, prog], 'bound': 'Atomic<int>: one thread doing *= 1 and /= 1, another doing %s; every interleaving of the lock operations with at most %d preemptions' % (('++ and += 3', '-- and -= 2', 'post-increment and *= 1')[prog], 2 if tier == 'quick' else 3)})
     return out
 
 
